@@ -385,6 +385,77 @@ theorem resize_eq (env : Env) (v : Vec) (xs : List Id) (newLen : Nat) (value : I
       congr 2
       apply Vec.eq_of <;> simp [Vec.after, dropArg, truncateSpec_escaped]
 
+/-! ## resize_with / pop_if -/
+
+theorem extendCloneSpec_exit (n : Nat) : ∀ (xs : List Id) (o : List Outcome),
+    (extendCloneSpec xs n o).exit = .ret () ∨ (extendCloneSpec xs n o).exit = .panic false := by
+  induction n with
+  | zero => intro xs o; simp [extendCloneSpec]
+  | succ n ih =>
+    intro xs o
+    match o with
+    | [] => simp [extendCloneSpec]
+    | .panic :: o => simp [extendCloneSpec]
+    | .ret id :: o => simp only [extendCloneSpec]; exact ih _ o
+
+theorem resizeWith_eq (env : Env) (v : Vec) (xs : List Id) (newLen : Nat) (o : List Outcome)
+    (hs : v.slots = I xs ++ H (v.cap - v.len)) (hl : xs.length = v.len) :
+    resizeWith env v newLen o =
+      .ok ⟨(if newLen > v.len then grown env v (newLen - v.len) else v).after
+              (resizeWithSpec (room env v (newLen - v.len)) env.bombs xs newLen o),
+           (resizeWithSpec (room env v (newLen - v.len)) env.bombs xs newLen o).exit,
+           (resizeWithSpec (room env v (newLen - v.len)) env.bombs xs newLen o).rest⟩ := by
+  unfold resizeWith resizeWithSpec
+  by_cases h : newLen > v.len
+  · have h' : newLen > xs.length := by omega
+    simp only [h, h', ↓reduceIte, hl]
+    unfold grown room
+    cases hr : reserve env v (newLen - v.len) with
+    | none =>
+      simp only [Option.getD_none, Option.isSome_none, extendCloneSpecR, Bool.false_eq_true, ↓reduceIte, after_noop hs hl]
+    | some v' =>
+      have ⟨g, hc⟩ := reserve_some hs hl hr
+      have hlen := g.len
+      simp only [Option.getD_some, Option.isSome_some, extendCloneSpecR, ↓reduceIte]
+      have hloop := extendWithLoop_eq (newLen - xs.length) xs v' o (v'.cap - v'.len) g.slots (by omega)
+      rw [hlen, ← hl, hloop]
+      have ⟨h1, h2⟩ := extendCloneSpec_length_le (newLen - xs.length) xs o
+      have ⟨h3, h4⟩ := extendCloneSpec_logs (newLen - xs.length) xs o
+      simp only
+      congr 2
+      · apply Vec.eq_of <;> simp [Vec.after, setLen, h3, h4, g.dropLog, g.escaped]
+        exact H_congr (by omega)
+      · rcases extendCloneSpec_exit (newLen - xs.length) xs o with h | h <;> rw [h] <;> rfl
+  · have h' : ¬ newLen > xs.length := by omega
+    simp only [h, h', ↓reduceIte]
+    rw [truncate_eq env.bombs v xs newLen hs hl]
+    simp only [Vec.after]
+
+theorem popIf_eq (v : Vec) (xs : List Id) (o : List Outcome)
+    (hs : v.slots = I xs ++ H (v.cap - v.len)) (hl : xs.length = v.len) :
+    popIf v o = .ok ⟨v.after (popIfSpec xs o), (popIfSpec xs o).exit, (popIfSpec xs o).rest⟩ := by
+  unfold popIf popIfSpec
+  by_cases h0 : v.len = 0
+  · have : xs = [] := List.eq_nil_of_length_eq_zero (by omega)
+    subst this
+    simp only [h0, ↓reduceIte, List.getLast?_nil, after_noop hs hl]
+  · have hne : xs ≠ [] := by intro h; subst h; simp at hl; omega
+    simp only [h0, ↓reduceIte, List.getLast?_eq_some_getLast hne]
+    have hs1 : v.slots = I xs.dropLast ++ Slot.init (xs.getLast hne) :: H (v.cap - v.len) := by
+      rw [hs, I_split_last xs hne]; simp
+    rw [peek_mid hs1 (by simp; omega)]
+    simp only
+    match o with
+    | [] => simp only [after_noop hs hl]
+    | .panic :: o => simp only [after_noop hs hl]
+    | .ret b :: o =>
+      by_cases hb : b ≠ 0
+      · simp only [hb, ne_eq, not_false_eq_true, ↓reduceIte]
+        rw [pop_eq v xs hs hl]
+        simp only [popSpec, List.getLast?_eq_some_getLast hne]
+        congr 2
+      · simp only [hb, ↓reduceIte, after_noop hs hl]
+
 /-! ## append -/
 
 theorem mapM_init (ys : List Id) : (I ys).mapM Slot.id? = some ys := by
